@@ -61,6 +61,8 @@ func genC02(r *gen.Rand, maxLayers int) *C02Case {
 	nBase := r.Range(1, 4)
 	bigIDs := !c.FileRoute && r.Chance(0.25)
 	listAttrs := r.Chance(0.25)
+	metaAttrs := r.Chance(0.25)
+	oddDocs := r.Chance(0.15) // documents that are not maps: empty, a list, a scalar
 	tagShift := r.Intn(4)
 	var baseTrees []map[string]any
 	var prev []string
@@ -82,6 +84,15 @@ func genC02(r *gen.Rand, maxLayers int) *C02Case {
 		}
 		doc["name"] = fmt.Sprintf("n%d", i)
 		doc["kind"] = gen.PickAny(r, c02Kinds)
+		if metaAttrs {
+			// an attribute that is a map in some documents, a scalar in others, absent in the rest
+			switch (i + tagShift) % 3 {
+			case 0:
+				doc["meta"] = map[string]any{"x": 1 + i%2}
+			case 1:
+				doc["meta"] = "flat"
+			}
+		}
 		if bigIDs {
 			// 64-bit identifiers that differ only in their low bits
 			doc["uid"] = 1180591620717411300 + i*3
@@ -92,7 +103,11 @@ func genC02(r *gen.Rand, maxLayers int) *C02Case {
 			doc["ports"] = []any{map[string]any{"pname": "app", "image": []string{"nginx", "redis"}[(i+tagShift)%2]}}
 		}
 		id := fmt.Sprintf("L0|doc%d", i)
-		add(wire.Op{Op: "MergeDocument", ID: id, Data: &wire.Tree{V: doc}}, 0, 0)
+		var data any = doc
+		if oddDocs && i > 0 && r.Chance(0.5) {
+			data = gen.PickAny(r, []any{nil, []any{1, 2}, "just a scalar", []any{}})
+		}
+		add(wire.Op{Op: "MergeDocument", ID: id, Data: &wire.Tree{V: data}}, 0, 0)
 		prev = append(prev, id)
 		baseTrees = append(baseTrees, doc)
 	}
@@ -201,11 +216,23 @@ func genC02(r *gen.Rand, maxLayers int) *C02Case {
 				delete(patch, "uid")
 				delete(patch, "tags")
 				delete(patch, "ports")
+				delete(patch, "meta")
 				if len(patch) == 0 {
 					patch["z"] = l
 				}
 			}
-			if listAttrs && r.Chance(0.5) {
+			if (metaAttrs || oddDocs) && r.Chance(0.5) {
+				// inverted patterns, at the top and nested under a key that
+				// may be a map, a scalar or absent in a candidate
+				patch["$match"] = gen.PickAny(r, []any{
+					map[string]any{"meta": map[string]any{"x": 1, "$invert": true}},
+					map[string]any{"meta": map[string]any{"x": 2}},
+					map[string]any{"kind": gen.PickAny(r, c02Kinds), "$invert": true},
+					map[string]any{"name": "n0", "$invert": true},
+					map[string]any{"meta": "flat", "$invert": true},
+					map[string]any{"meta": map[string]any{"$invert": true, "nope": 1}},
+				})
+			} else if listAttrs && r.Chance(0.5) {
 				// list patterns: every pattern entry must match SOME element —
 				// several entries may be satisfied by the same element, and a
 				// pattern may be longer than the list it is matched against
